@@ -114,7 +114,8 @@ class P:
         if len(io) != len(mo): return "length"
         for a, b in zip(io, mo):
             if ":L[" in a:
-                eq, _ = values.exec_equal(a, b)
+                eq, abst = values.exec_equal(a, b)
+                if abst: return None      # the model abstained (known dependency class): the rest of this history is not comparable
                 if not eq: return "faulted evaluation / follow-up"
             elif a != b: return "context after the fault"
         return None
